@@ -77,18 +77,18 @@ var c42Scenarios = []*c42Scenario{
 	{ // fallback, two servers
 		Name: "fallback2", NServers: 2, Slow: -1, Watchers: c42WSame, Dt: time.Second, AvoidKnown: true,
 		Alpha:  []string{"W1", "W3", "C0", "C1", "E0", "E1", "R0:1:a1b1", "R1:1:a1b1", "R0:1:a2", "A"},
-		DepthQ: 5, DepthT: 7, Props: []string{"C44"},
+		DepthQ: 6, DepthT: 8, Props: []string{"C44"},
 	},
 	{ // fallback, three servers, one resource
 		Name: "fallback3", NServers: 3, Slow: -1, Watchers: c42WSame, Dt: time.Second, AvoidKnown: true,
 		Alpha:  []string{"W1", "C0", "C1", "C2", "E0", "E1", "E2", "R0:1:a1", "R1:1:a1", "R2:1:a1", "A"},
-		DepthQ: 5, DepthT: 7, Props: []string{"C44"},
+		DepthQ: 6, DepthT: 8, Props: []string{"C44"},
 	},
 	{ // fallback, three servers, starting with the primary unreachable
 		Name: "fallback3-down", NServers: 3, Slow: -1, Watchers: c42WSame, Dt: time.Second, AvoidKnown: true,
 		Prefix: []string{"C0", "W1"},
 		Alpha:  []string{"W1", "W3", "C0", "C1", "E1", "E2", "R0:1:a1b1", "R1:1:a1b1", "R2:1:a1b1", "A"},
-		DepthQ: 4, DepthT: 6, Props: []string{"C44"},
+		DepthQ: 5, DepthT: 7, Props: []string{"C44"},
 	},
 }
 
@@ -297,7 +297,22 @@ func c42Compare(sc *c42Scenario, ev c42Ev, exp *c42Exp, obs *c42Obs) (fails []c4
 			continue
 		}
 		final := g.Snaps[len(g.Snaps)-1]
-		idx := 0
+		// Admissible name lists: the statement asks for "the subscription set at
+		// some instant since the previous request". Several names can change in
+		// one step (re-subscription on a fallback server, unsubscription on
+		// revert) and the order in which the client walks them is not specified,
+		// so an instant is: everything that stays, plus any part of what is being
+		// added, minus any part of what is being removed - progressing
+		// monotonically from one request to the next.
+		first := g.Snaps[0]
+		inFirst, inFinal := map[string]bool{}, map[string]bool{}
+		for _, n := range first {
+			inFirst[n] = true
+		}
+		for _, n := range final {
+			inFinal[n] = true
+		}
+		added, gone := map[string]bool{}, map[string]bool{}
 		for _, q := range qs {
 			if q.Ver != g.Ver {
 				add("C42", "request-version/"+evk, "%s: request must carry version %q (last accepted), saw %v", where, g.Ver, q)
@@ -308,17 +323,45 @@ func c42Compare(sc *c42Scenario, ev c42Ev, exp *c42Exp, obs *c42Obs) (fails []c4
 			if q.Err {
 				add("C42", "request-error-detail/"+evk, "%s: unexpected error_detail: %v", where, q)
 			}
-			j := idx
-			for j < len(g.Snaps) && !c42EqStrs(g.Snaps[j], q.Names) {
-				j++
+			have := map[string]bool{}
+			ok := true
+			for _, n := range q.Names {
+				if have[n] || (!inFirst[n] && !inFinal[n]) {
+					ok = false // duplicate or never part of the subscription in this step
+				}
+				have[n] = true
 			}
-			if j == len(g.Snaps) {
-				add("C42", "request-names/"+evk, "%s: names %v equal no subscription set of this step %v (in order)", where, q.Names, g.Snaps)
+			for n := range inFirst {
+				if inFinal[n] && !have[n] {
+					ok = false // a name that stays subscribed is missing
+				}
+			}
+			for n := range added {
+				if !have[n] {
+					ok = false // an added name vanished again
+				}
+			}
+			for n := range gone {
+				if have[n] {
+					ok = false // a removed name came back
+				}
+			}
+			if !ok {
+				add("C42", "request-names/"+evk, "%s: names %v are no subscription set of any instant of this step (sets in model order: %v)", where, q.Names, g.Snaps)
 				if c42HasStale(q.Names, g.Snaps) {
 					add("C43", "unwatched-name-still-requested/"+evk, "%s: request lists a name nobody watches any more: sets of this step %v, saw %v", where, g.Snaps, q)
 				}
-			} else {
-				idx = j
+				continue
+			}
+			for n := range inFinal {
+				if !inFirst[n] && have[n] {
+					added[n] = true
+				}
+			}
+			for n := range inFirst {
+				if !inFinal[n] && !have[n] {
+					gone[n] = true
+				}
 			}
 		}
 		must := !g.Closing && ((g.NewStream && len(final) > 0) || (!g.NewStream && len(g.Snaps) > 1))
